@@ -27,7 +27,7 @@ let unhex tok =
 let hx s = let b = Buffer.create 16 in Buffer.add_char b 'x';
   String.iter (fun c -> Buffer.add_string b (Printf.sprintf "%02x" (Char.code c))) s; Buffer.contents b
 let cs tok = explode (unhex tok)
-let clear_sp s = String.map (fun c -> if c = ' ' then '_' else c) (String.trim s)
+let clear_sp s = implode (clear_spaces (explode s))
 let toks line = List.filter (fun s -> s <> "") (String.split_on_char ' ' line)
 
 type state = { mutable lines : string list }
@@ -193,22 +193,25 @@ let show_save = function
   | EBus h -> "B" ^ ns h | ENif h -> "N" ^ ns h | EMsg h -> "M" ^ ns h | ESig h -> "S" ^ ns h
   | EAsg a -> "A" ^ ns a.ra_h | ERecv (h, k) -> "R" ^ ns h ^ ":" ^ zs k
   | ERef (t, h) -> Printf.sprintf "F%d:%s" (int_of_nat t) (ns h) | EVal i -> "V" ^ zs i
-  | EAsgN (_, _) -> "?" | ELab _ -> "?"
+  | _ -> "?"
 
 let find tbl k = try Hashtbl.find tbl k with Not_found -> "?" ^ k
 
 (* the DBC skeleton as the four projections the text offers *)
 let show_dbc (evs : ev list) : string =
+  let us l = String.map (fun c -> if c = ' ' then '_' else c) (implode l) in
   let nodes = List.filter_map (function ENif h -> Some ("N" ^ find node_name_tbl (ns h)) | _ -> None) evs in
-  let labs = List.filter_map (function ELab l -> Some ("L" ^ hx (String.map (fun c -> if c = ' ' then '_' else c) (implode l))) | _ -> None) evs in
+  let labs = List.filter_map (function ELab l -> Some ("L" ^ hx (us l)) | _ -> None) evs in
   let msgs = List.filter_map (function
       | EMsg h -> Some ("M" ^ find msg_key_tbl (ns h))
       | ESig h -> Some ("S" ^ find sig_name_tbl (ns h))
+      | ERecvN n -> Some ("r" ^ hx (implode n))
       | _ -> None) evs in
+  let defs = List.filter_map (function EDef (k, nm) -> Some (Printf.sprintf "D%d:%s" (int_of_nat k) (hx (implode nm))) | _ -> None) evs in
   let asg = List.filter_map (function
-      | EAsgN (o, nm) -> Some ("a" ^ find owner_key (ns o) ^ ":" ^ hx (clear_sp (implode nm)))
+      | EAsgN (_, o, nm) -> Some ("a" ^ find owner_key (ns o) ^ ":" ^ hx (implode nm))
       | _ -> None) evs in
-  String.concat " " (nodes @ ["|"] @ labs @ ["|"] @ msgs @ ["|"] @ asg)
+  String.concat " " (nodes @ ["|"] @ labs @ ["|"] @ msgs @ ["|"] @ defs @ ["|"] @ asg)
 
 let readable line =
   String.concat " " (List.map (fun t -> if String.length t > 0 && t.[0] = 'x' && String.length t mod 2 = 1
@@ -224,7 +227,7 @@ let () =
   let all = ref [] in
   (try while true do all := input_line ic :: !all done with End_of_file -> ());
   let st = { lines = List.rev !all } in
-  let cases = ref 0 and bad = ref 0 in
+  let cases = ref 0 and bad = ref 0 and wf_false = ref 0 in
   let kinds = Hashtbl.create 8 in
   (try
      while st.lines <> [] do
@@ -242,6 +245,10 @@ let () =
        let obs_dbc = dbcs () in
        (match pop st with "endobsall" -> () | _ -> failwith "endobsall expected");
        incr cases;
+       if not (wf_netb net) then begin
+         incr bad; incr wf_false;
+         Printf.printf "MISMATCH case %s [wf]: wf_netb is false on the raw network dumped from the implementation (hypothesis of the C15 theorems)\n" idx
+       end;
        let report kind what =
          incr bad;
          Hashtbl.replace kinds kind (1 + try Hashtbl.find kinds kind with Not_found -> 0);
@@ -279,4 +286,5 @@ let () =
      done
    with Failure m -> Printf.printf "DRIVER-ERROR %s\n" m; incr bad);
   Hashtbl.iter (fun k v -> Printf.printf "KIND %s %d\n" k v) kinds;
+  Printf.printf "WFCHECKED %d WFFALSE %d\n" !cases !wf_false;
   Printf.printf "CASES %d MISMATCHES %d\n" !cases !bad
